@@ -233,7 +233,7 @@ fn small_tree(m: &Model, a: u16, b: u16, c: u16, d: u16) -> Option<Call> {
         for i in 0..kids.min(m.n) {
             nodes.push(TNode { id: i + 1, parent: Some(0), label: Some(Lab::Alpha(20 + i as u64)), data: if (c >> (i + 1)) & 1 == 1 { Some(vec![i as u8; 2]) } else { None }, read: false });
         }
-        return Some(Call::Merge { h: TreeSpec { cap: 12, nodes, extras: vec![], pairs_first: false }, left });
+        return Some(Call::Merge { h: TreeSpec { cap: 12, nodes, extras: vec![], pairs_first: false, segment: 0 }, left });
     }
     let labels = [Lab::Alpha(0), Lab::Str("foo".into()), Lab::Greek('x'), Lab::Str("bar".into())];
     let want = 1 + (a as usize & 7) % 5;
@@ -276,7 +276,7 @@ fn small_tree(m: &Model, a: u16, b: u16, c: u16, d: u16) -> Option<Call> {
             break;
         }
     }
-    Some(Call::Merge { h: TreeSpec { cap: hcap, nodes, extras: vec![], pairs_first: false }, left })
+    Some(Call::Merge { h: TreeSpec { cap: hcap, nodes, extras: vec![], pairs_first: false, segment: 0 }, left })
 }
 
 /// Resolve one op seed against the model. None = no valid candidate (skip).
